@@ -135,7 +135,7 @@ def a3(ctx):
             if not is_yes_test(tn, tn.ast):
                 continue
             # the negated return is reached only through the 'yes' edge, the plain return only through the other
-            only_t = r.id not in cfg.reachable([cfg.entry], block_edges=[(tn, m, l) for m, l in tn.succ if l == "t"])
+            only_t = r.id not in cfg.reachable([cfg.entry], block_edges=cfg.test_edges(tn, "t"))
             if only_t and is_not:
                 neg_ok = True
     # ... and the un-negated result is not returned on the 'yes' side
@@ -144,7 +144,7 @@ def a3(ctx):
         if isinstance(v, ast.UnaryOp) and isinstance(v.op, ast.Not):
             continue
         for tn in [x for x in cfg.nodes if x.kind == "test"]:
-            if is_yes_test(tn, tn.ast) and r.id not in cfg.reachable([cfg.entry], block_edges=[(tn, m, l) for m, l in tn.succ if l == "t"]):
+            if is_yes_test(tn, tn.ast) and r.id not in cfg.reachable([cfg.entry], block_edges=cfg.test_edges(tn, "t")):
                 neg_ok = False
     obs.append(ctx.ob(neg_ok, tm.qualname, tm.where, "negate-condition=yes negates", "returns `not matches` under == 'yes'",
                       "apply_text_match does not return the negation exactly when negate-condition is 'yes'"))
